@@ -5,7 +5,6 @@ import (
 	"encoding/json"
 	"flag"
 	"fmt"
-	"io"
 	"os"
 	"runtime"
 	"strconv"
@@ -39,11 +38,11 @@ func main() {
 	if len(os.Args) < 2 {
 		usage()
 	}
+	lvl := logging.LevelError
 	if os.Getenv("VERIF_DEBUG") != "" {
-		_ = logging.Initialize(os.Stderr, logging.FmtLogfmt, logging.LevelWarn, nil)
-	} else {
-		_ = logging.Initialize(io.Discard, logging.FmtLogfmt, logging.LevelError, nil)
+		lvl = logging.LevelWarn
 	}
+	_ = logging.Initialize(core.Logs, logging.FmtLogfmt, lvl, nil)
 	switch os.Args[1] {
 	case "crashchild":
 		store.CrashChildMain(os.Args[2:])
